@@ -18,6 +18,7 @@ type blockInfo struct {
 	b   *hotstuff.Block
 	sym string
 	idx int
+	by  *Node // who first put the block into the world (nil: seen before anybody claimed it)
 }
 
 type registry struct {
@@ -40,7 +41,7 @@ func (r *registry) add(b *hotstuff.Block, by *Node) *blockInfo {
 	if bi, ok := r.byHash[b.Hash()]; ok {
 		return bi
 	}
-	bi := &blockInfo{b: b, idx: len(r.order)}
+	bi := &blockInfo{b: b, idx: len(r.order), by: by}
 	bi.sym = fmt.Sprintf("B%d(v%d,p%d,par=%s,qc=%s@%d)", bi.idx, b.View(), b.Proposer(), r.sym(b.Parent()), r.sym(b.QuorumCert().BlockHash()), b.QuorumCert().View())
 	r.byHash[b.Hash()] = bi
 	r.order = append(r.order, bi)
